@@ -1695,6 +1695,9 @@ def rule_own(rows, prop):
                         findings.append(finding("R-OWN.vector.dtor", prop, r, d["b"], "deallocation additionally depends on %s: a non-null buffer can be leaked" % sorted(extra), d.get("line")))
             if (is_ctor and [p["name"] for p in r["params"]] == ["other"]) or short == "operator=":
                 has_resize = any(f["k"] == "call" and f["b"] == "this.resize($other.size_)" for f in facts)
+                # `i < size_` bounds the reads of the source only if size_ IS the source's size at that point: the resize to the
+                # source's size must then be unconditional (a resize that only grows leaves size_ above other.size_ when shrinking)
+                resize_uncond = any(f["k"] == "call" and f["b"] == "this.resize($other.size_)" and not _gset(f) for f in facts)
                 def _elem_copy(f):
                     if f["k"] != "assign":
                         return False
@@ -1702,7 +1705,7 @@ def rule_own(rows, prop):
                     if not (ma and mb and ma.group(1) == mb.group(1)):
                         return False
                     v = "%" + ma.group(1)
-                    return any(op == "<" and a == v and b in ("this.size_", "$other.size_") for (op, a, b) in _cmp_guards(f))
+                    return any(op == "<" and a == v and (b == "$other.size_" or (b == "this.size_" and resize_uncond)) for (op, a, b) in _cmp_guards(f))
                 has_copy = any(_elem_copy(f) for f in facts)
                 if not (has_resize and has_copy):
                     findings.append(finding("R-OWN.vector.copy", prop, r, short, "copy does not resize to the source size and copy element-wise under i < size_ (resize=%s, element copy=%s)" % (has_resize, has_copy)))
